@@ -131,8 +131,24 @@ func (ucr *UnsignedChunkReader) Read(p []byte) (int, error) {
 	// The underlying reader defers the request authorization until it
 	// reaches io.EOF: make sure the end is actually read, so that an error
 	// delivered together with the final bytes isn't left in the buffer
-	if _, err := ucr.reader.Peek(1); err != nil && err != io.EOF {
-		return 0, err
+	// (bytes that follow the end of the chunked body are skipped: they must
+	// not keep the end of the stream from being seen)
+	empty := 0
+	for {
+		n, err := ucr.reader.Discard(512)
+		if err == io.EOF {
+			break
+		}
+		if err != nil {
+			return 0, err
+		}
+		if n > 0 {
+			empty = 0
+			continue
+		}
+		if empty++; empty >= 100 {
+			return 0, io.ErrNoProgress
+		}
 	}
 
 	return ucr.offset, io.EOF
